@@ -98,6 +98,35 @@ def check(case, ctx):
     if fp_of(spec, oK) != fp:
         raise Violation("fingerprint-restriction", f"fingerprint differs between o and o|K; K={sorted(K)} o={o}")
     n_out = n_in = 0
+    # the same evaluatable object and the same dictionary OBJECT, edited in place between calls: the fingerprint
+    # must follow the contents (it is a function of the reported keys and their values alone)
+    live = copy.deepcopy(o)
+    same_obj = build(spec).root
+    if same_obj.fingerprint(live) != fp:
+        raise Violation("fingerprint-not-deterministic", f"two builds disagree on the fingerprint of {o}")
+    for pert in case["perturbations"]:
+        if pert[0] == "inside" and K:
+            key = sorted(K)[pert[1] % len(K)]
+            if json.dumps(U.dotted_get(o, key), sort_keys=True) == json.dumps(pert[2], sort_keys=True):
+                continue
+            o3 = U.dotted_set(o, key, pert[2])
+            live.clear()
+            live.update(copy.deepcopy(o3))
+            try:
+                fresh3 = fp_of(spec, o3)
+            except Exception:
+                live.clear()
+                live.update(copy.deepcopy(o))
+                same_obj.fingerprint(live)
+                continue
+            got3 = same_obj.fingerprint(live)
+            if got3 != fresh3:
+                raise Violation("fingerprint-depends-on-history", f"after editing the same dictionary object in place ({key!r} -> {pert[2]!r}) the same "
+                                                                  f"evaluatable reports {got3!r}, a fresh build on an equal dictionary {fresh3!r}; o={o}")
+            labels.add("in-place-edit")
+            live.clear()
+            live.update(copy.deepcopy(o))
+            same_obj.fingerprint(live)
     for pert in case["perturbations"]:
         kind = pert[0]
         if kind == "perm":
